@@ -2,12 +2,28 @@
 hello/answer pair are mirrored; exporters equal for every PRF given equal secrets) + real handshakes of the
 C11 configuration-pair generator over a faulty scripted network (loss, duplication, reordering, delay of
 handshake datagrams): whenever both sides report success every negotiated output is compared across the two
-endpoints (the property's own statement), with the captured wire and with `negotiate` of Neg/C11Negotiate.v."""
+endpoints (the property's own statement), with the captured wire and with `negotiate` of Neg/C11Negotiate.v.
+Base pairs with a ServerHello message hook (appended / rewritten ALPN, swapped cipher suite) check that the server's
+committed view is a function of its FINAL ServerHello (F82, repaired; model negotiate_steered / agreement12_hooked),
+and a pair on a user-supplied cipher suite (WithCustomCipherSuites) checks the exporter clause there (known item:
+ExportKeyingMaterial fails, model gap export_as_coded / C01_export_unavailable_on_custom_suite_refuted)."""
 import json
 import vlib
 import c11lib
 
 SITE = "handshake commit points (flight12 flight3Parse/flight4Generate/flight4bGenerate, flight13, state.go generateState / ExportKeyingMaterial)"
+
+
+SITES = {
+    "exporter-unavailable-on-custom-cipher-suite":
+        "state.go ExportKeyingMaterial / initializedCipherSuite (ciphersuite.ForID(id, nil): the suites of "
+        "WithCustomCipherSuites are not consulted)",
+    "server-commits-pre-hook-server-hello":
+        "internal/flight/flight12/flight4handler.go flight4Generate / flight4bhandler.go flight4bGenerate (values committed "
+        "before the ServerHello hook)",
+}
+# base pairs that must be REFUSED on a perfect network (the hook names another cipher suite than the server chose)
+EXPECT_REFUSED = ("base:hook-swaps-cipher-suite",)
 
 
 def key_of(c):
@@ -38,17 +54,29 @@ def run(chk):
     established = [c for c in cases if c11lib.both_built(c) and c11lib.both_ok(c)]
     reported = set()
     for c in established:
+        for mon, text in c11lib.monitor_hook(c):
+            if mon in reported:
+                continue
+            reported.add(mon)
+            found_input = True
+            chk.finding(SITES[mon], {"monitor": mon}, "%s [gen %s, mask %s]" % (text, c["gen"], c["mask"]),
+                        {"how": "ServerHello message hook on the server, scripted network", "case": c11lib.slim_case(c)})
         for mon, text in c11lib.monitor_agreement(c):
             if mon in reported:
                 continue
             reported.add(mon)
             found_input = True
-            chk.finding(SITE, {"monitor": "disagreement:" + mon},
+            chk.finding(SITES.get(mon, SITE), {"monitor": "disagreement:" + mon},
                         "both sides report success but %s [gen %s, mask %s]" % (text, c["gen"], c["mask"]),
                         {"how": "option sets c/s, scripted network: action per emitted datagram index "
                                 "(pass/drop/dup/hold:k), then reliable", "case": c11lib.slim_case(c)})
     # a fault-free run of every base pair must establish (otherwise the leg exercises nothing)
     for c in cases:
+        if c["gen"] in EXPECT_REFUSED:
+            if not c["mask"] and c11lib.both_ok(c) and not c11lib.monitor_hook(c):
+                chk.broken("base pair %s establishes although the hook named another cipher suite" % c["gen"],
+                           json.dumps(c11lib.slim_case(c))[:3000])
+            continue
         if c["gen"].startswith("base:") and not c["mask"] and not c11lib.both_ok(c):
             chk.broken("base pair %s does not establish on a perfect network" % c["gen"],
                        json.dumps(c11lib.slim_case(c))[:3000])
@@ -58,13 +86,21 @@ def run(chk):
     if not ok_model:
         chk.broken("model Neg/C11Run.v no longer compiles", mout)
     elif established:
-        terms = [c11lib.case_term(c) for c in established]
-        bad, err = vlib.coq_mismatches("c01", c11lib.IMPORTS, "c11_case", "c11_ok", terms, shard=80)
+        # (a user-supplied cipher suite is outside the negotiation model; hooked associations go through negotiate_steered)
+        plain = [c for c in established if not c11lib.custom_suite(c) and not c11lib.steered(c)]
+        hooked = [c for c in established if not c11lib.custom_suite(c) and c11lib.steered(c) and c11lib.steer_modelled(c)]
+        terms = [c11lib.case_term(c) for c in plain]
+        bad, err = vlib.coq_mismatches("c01", c11lib.IMPORTS, "c11_case", "c11_ok", terms, shard=80) if terms else ([], "")
+        if bad is not None and hooked:
+            bad2, err = vlib.coq_mismatches("c01s", c11lib.IMPORTS, "c11s_case", "c11s_ok",
+                                            [c11lib.steer_case_term(c) for c in hooked], shard=80)
+            bad = None if bad2 is None else bad + [len(plain) + i for i in bad2]
+        established_cmp = plain + hooked
         if bad is None:
-            chk.broken("correspondence evaluation failed in coqc (Neg/C11Run.v c11_ok)", err)
+            chk.broken("correspondence evaluation failed in coqc (Neg/C11Run.v c11_ok / c11s_ok)", err)
         else:
             for i in bad[:1]:
-                c = established[i]
+                c = established_cmp[i]
                 mons = c11lib.monitor_agreement(c)
                 chk.finding(SITE, {"monitor": "model-mismatch"},
                             "established association differs from Neg/C11Negotiate.v negotiate [gen %s, mask %s]%s" % (
@@ -100,9 +136,12 @@ def run(chk):
         chk.broken("proof obligation Properties/C01.v no longer checks (%s)" % where, pout)
     chk.finish(
         level="proof",
-        rule="real client+server handshakes in a synctest bubble over a scripted faulty network: 12 base pairs (certificate, "
+        rule="real client+server handshakes in a synctest bubble over a scripted faulty network: 17 base pairs (certificate, "
              "client authentication ECDSA/Ed25519, RSA, PSK with/without hint, ECDHE-PSK, resumed certificate/PSK, DTLS 1.3 "
-             "with/without client authentication and cookie, dual-stack against 1.3 and 1.2; CID+SRTP+MKI+ALPN on) x every "
+             "with/without client authentication and cookie, dual-stack client against 1.3, dual-stack against dual-stack, 1.2 "
+             "client against dual-stack; a server ServerHello message hook that appends ALPN / rewrites ALPN / names "
+             "another cipher suite - the last must be refused; a user-supplied cipher suite 0xFFFE on both sides; "
+             "CID+SRTP+MKI+ALPN on) x every "
              "single fault (drop/dup/hold:1/hold:3) on the first datagrams, plus generated compatible pairs x sampled masks; "
              "on every association both sides report as established: version, suite, 3 exporters, mirrored CIDs, RRC, ALPN, "
              "SRTP profile + MKI, peer chains vs presented chains, 2 payloads each way, and equality with `negotiate`. "
@@ -112,4 +151,7 @@ def run(chk):
                      "established by the Finished exchange (C04); byte-level key derivation is C10",
                      "unmodified datagrams: the network only drops, duplicates, delays and reorders",
                      "exporter equality is proved for every PRF at the level of the formula; the harness compares the real "
-                     "bytes of 3 labels"])
+                     "bytes of 3 labels",
+                     "the exporter formula presupposes that the suite's hash can be looked up: as coded that holds for "
+                     "built-in suites only (export_as_coded); associations on a user-supplied cipher suite are outside "
+                     "the negotiation model and are judged by the monitors alone"])
